@@ -230,14 +230,19 @@ structure Cfg where
   was renamed in the same delta, the renames being finished by then -/
   kindChangeAtNew : Bool := false
   /-- `upload_symlink` hands its paths to `Transport.symlink` WITHOUT `urlutils.escape` (every other
-  operation escapes): the paths at which creating a symlink therefore raises InvalidURL (link path or
-  target path with a non-ASCII character or a percent sign; computed by the check from the real names -
-  the model itself sees name tokens).  Empty for an uploader that escapes. -/
-  badLinks : List Path := []
+  operation escapes).  For the link paths the transport therefore does not take as they are: what happens
+  instead - `none`: InvalidURL (a non-ASCII character; or the percent-decoded target no longer lies below the
+  percent-decoded link's directory), `some p'`: the link is created at the percent-decoded path `p'`.
+  Computed by the check from the real names (the model itself sees name tokens).  Empty for an uploader
+  that escapes. -/
+  badLinks : List (Path × Option Path) := []
   /-- `delete_remote_file` swallows NoSuchFile for `.bzrignore` / `.bzrignore-upload` (which a full upload
   never copies); as found (`false`) it does not -/
   tolerantSpecialDelete : Bool := false
   deriving DecidableEq, Repr
+
+/-- what creating a symlink at `p` does: `none` = as asked -/
+def linkFate (c : Cfg) (p : Path) : Option (Option Path) := (c.badLinks.find? (·.1 == p)).map (·.2)
 
 def symlinkStep (c : Cfg) (p : Path) (t : String) : Step :=
   if c.robustSymlinks then .symlinkRobust p t else .symlink p t
@@ -371,7 +376,11 @@ def exec (c : Cfg) (t : Tree) (s : State) : Step → State × Option Err
     let r := finishDel s.root s.pendingDel.reverse
     ({ s with root := r.1, pendingDel := [] }, r.2)
   | .mkdir p => lift s (tMkdir s.root p)
-  | .symlink p tg => if c.badLinks.contains p then (s, some .invalidURL) else lift s (doSymlink s.root p tg)
+  | .symlink p tg =>
+    match linkFate c p with
+    | none => lift s (doSymlink s.root p tg)
+    | some none => (s, some .invalidURL)
+    | some (some p') => lift s (doSymlink s.root p' tg)
   | .fileRobust p =>
     match forceClear c s.root p with
     | .ok r => lift { s with root := r } (doUploadFile t r p p)
@@ -380,8 +389,10 @@ def exec (c : Cfg) (t : Tree) (s : State) : Step → State × Option Err
     -- the robust variant passes `normpath(dirname(p)/target)`, which does lie below the link's directory
     match forceClear c s.root p with
     | .ok r =>
-      if c.badLinks.contains p then ({ s with root := r }, some .invalidURL)
-      else lift { s with root := r } (tSymlink r p tg)
+      (match linkFate c p with
+        | none => lift { s with root := r } (tSymlink r p tg)
+        | some none => ({ s with root := r }, some .invalidURL)
+        | some (some p') => lift { s with root := r } (tSymlink r p' tg))
     | .error e => (s, some e)
   | .mkdirRobust p =>
     match lookup s.root p with
